@@ -42,6 +42,21 @@ fn case(rng: &mut Rng, idx: u64, rec: &mut Rec) {
     if rng.chance(1, 6) {
         cfg.orig.push(("connection".into(), b"close".to_vec()));
     }
+    // one case in six: the flow is the product of a redirect. A POST carrying the same headers was
+    // answered 303; the GET that follows inherits the Expect header (not the content-length), the
+    // caller forces a body onto it, and the handshake must work as on any other flow.
+    let via_redirect = rng.chance(1, 6);
+    let mut first_hop = None;
+    if via_redirect {
+        let mut c1 = ReqCfg::new("POST", "http://h.test/first");
+        c1.ver = cfg.ver;
+        c1.orig = cfg.orig.clone();
+        first_hop = Some(c1);
+        cfg.method = "GET";
+        cfg.despite = true;
+        cfg.despite_twice = false;
+        cfg.orig.retain(|(n, _)| n != "content-length");
+    }
     // the first head the server sends
     let first_is_100 = idx % 2 == 0;
     let reason = interim_reason(rng);
@@ -109,9 +124,25 @@ fn case(rng: &mut Rng, idx: u64, rec: &mut Rec) {
     rec.ev(|| format!("request: {} body={}B", ex.cfg.describe(), ex.req_body.len()));
     rec.ev(|| format!("server: {:?}", esc_short(&stream, 160)));
     rec.ev(|| format!("first head is {} ({} bytes, status line {} bytes); caller: {:?}, first look at prefix {}", if first_is_100 { "100" } else if bare_final { "bare final" } else { "final with fields" }, full_first, status_line_len, branch, look_at));
-    let flow = match build_flow(&ex.cfg) {
-        Ok(f) => f,
-        Err(e) => return rec.fail("C11/setup", format!("{:?}", e)),
+    let flow = match &first_hop {
+        None => match build_flow(&ex.cfg) {
+            Ok(f) => f,
+            Err(e) => return rec.fail("C11/setup", format!("{:?}", e)),
+        },
+        Some(c1) => {
+            rec.cov("flow-produced-by-a-redirect");
+            let made = fast_to_recv(c1).and_then(|f| fast_response(f, b"HTTP/1.1 303 See Other\r\nLocation: /upload\r\nContent-Length: 0\r\n\r\n")).and_then(|(end, ..)| match end {
+                End::Redirect(mut r) => match r.as_new_flow(ureq_proto::client::flow::RedirectAuthHeaders::Never) {
+                    Ok(Some(mut nf)) => apply_prepare(&mut nf, &ex.cfg).map(|_| nf).map_err(|e| format!("{:?}", e)),
+                    other => Err(format!("as_new_flow: {:?}", other.map(|o| o.is_some()))),
+                },
+                End::Cleanup(_) => Err("303 did not reach the redirect state".into()),
+            });
+            match made {
+                Ok(f) => f,
+                Err(e) => return rec.fail("C11/setup-through-redirect", e),
+            }
+        }
     };
     let mut d = Driver::new(flow, &ex.cfg, &ex.req_body, &stream, truth.scen, sched);
     let end = d.run(rec);
@@ -203,7 +234,7 @@ impl Property for P {
         "C11"
     }
     fn rule(&self) -> String {
-        "requests with Expect: 100-continue (POST/PUT/PATCH, 1.0/1.1, sized/chunked bodies of 0..11000 bytes) against servers whose first head is a bare 100 (seven reason phrases incl. empty) or any other response with or without fields; the caller looks first at a chosen prefix (every prefix class: empty, inside the status line, right after it, inside the rest, complete) and then either keeps looking until decided or gives up. Every look is judged by the handshake model (nothing decided or consumed up to the end of the status line; a complete bare 100 consumed exactly; anything else never consumed and decided once complete). The run continues to Cleanup under a random schedule: edge out of Await100, late-100 skipped exactly once and by exactly its length, the refusal returned by try_response as that very response, body sent iff not refused, must-close after refusal, plus all ground-truth checks of C01. class = first head kind x prefix class of each look, handshake branch.".into()
+        "requests with Expect: 100-continue (POST/PUT/PATCH, 1.0/1.1, sized/chunked bodies of 0..11000 bytes) against servers whose first head is a bare 100 (seven reason phrases incl. empty) or any other response with or without fields; the caller looks first at a chosen prefix (every prefix class: empty, inside the status line, right after it, inside the rest, complete) and then either keeps looking until decided or gives up. Every look is judged by the handshake model (nothing decided or consumed up to the end of the status line; a complete bare 100 consumed exactly; anything else never consumed and decided once complete). The run continues to Cleanup under a random schedule: edge out of Await100, late-100 skipped exactly once and by exactly its length, the refusal returned by try_response as that very response, body sent iff not refused, must-close after refusal, plus all ground-truth checks of C01. One case in six runs the handshake on a flow produced by a redirect (POST with Expect answered 303, the GET that follows inherits Expect and gets a body through the escape hatch). class = first head kind x prefix class of each look, handshake branch.".into()
     }
     fn assumptions(&self) -> Vec<String> {
         vec![
@@ -228,6 +259,7 @@ impl Property for P {
         }
         v.push(("look/final-with-fields/inside-rest-of-head".into(), 10));
         v.push(("late-100-twice".into(), 50));
+        v.push(("flow-produced-by-a-redirect".into(), 100));
         for b in ["branch/Got100/SendBody", "branch/Late100/SendBody", "branch/GiveUp/SendBody", "branch/Refused/RecvResponse"] {
             v.push((b.to_string(), 100));
         }
